@@ -68,6 +68,19 @@ theorem verify_err_sound (t : String) (mm : MM) (cs : List Collision) (h : verif
 `_verify_intra_structure_collisions` ending in `return None` (the defect fixed in 555a076f) or the result
 of `definitions.update({"ModelType": …})` ignored (546b5563) the `decide`s below fail. -/
 
+/-- The naming functions applied inside `_verify_intra_structure_collisions` (regenerated from the source) are
+the ones the generators of that target use for the same members: every property/method loop and, for
+cpp/python/typescript, the literal loop are present.  A dropped loop or another naming function in the check
+changes `Gen.Naming.intraLoops` and this `decide` no longer closes. -/
+theorem intra_loops_pinned : Gen.Naming.intraLoops = [
+  ("cpp", [("literal", "cpp.enum_literal_name"), ("prop", "cpp.getter_name"), ("prop", "cpp.mutable_getter_name"), ("prop", "cpp.setter_name"), ("prop", "cpp.private_property_name"), ("method", "cpp.method_name")]),
+  ("csharp", [("prop", "csharp.property_name"), ("method", "csharp.method_name")]),
+  ("golang", [("prop", "golang.getter_name"), ("prop", "golang.setter_name"), ("method", "golang.method_name")]),
+  ("java", [("prop", "java.property_name"), ("method", "java.method_name")]),
+  ("python", [("literal", "python.enum_literal_name"), ("prop", "python.property_name"), ("method", "python.method_name")]),
+  ("typescript", [("literal", "typescript.enum_literal_name"), ("prop", "typescript.property_name"), ("method", "typescript.method_name")])
+] := by decide
+
 theorem intra_reported_all : ∀ t ∈ sdkTargets, intraReported t = true := by decide
 
 theorem schema_checks_present :
